@@ -10,6 +10,12 @@ thread_local! {
     static LIVE: Cell<isize> = const { Cell::new(0) };
     static PEAK: Cell<isize> = const { Cell::new(0) };
     static ALLOCS: Cell<u64> = const { Cell::new(0) };
+    /// absolute live-byte level above which the current window counts as tripped
+    static LIMIT: Cell<isize> = const { Cell::new(isize::MAX) };
+    /// name of the library call in flight (set by the workload before each call)
+    pub static MARK: Cell<&'static str> = const { Cell::new("-") };
+    /// the call that was in flight when the window first went over its limit
+    static TRIPPED: Cell<Option<&'static str>> = const { Cell::new(None) };
 }
 
 pub struct CountingAlloc;
@@ -23,6 +29,15 @@ fn add(n: isize) {
             let _ = PEAK.try_with(|p| {
                 if v > p.get() {
                     p.set(v);
+                }
+            });
+            let _ = LIMIT.try_with(|lim| {
+                if v > lim.get() {
+                    let _ = TRIPPED.try_with(|t| {
+                        if t.get().is_none() {
+                            t.set(Some(MARK.try_with(|m| m.get()).unwrap_or("-")));
+                        }
+                    });
                 }
             });
             let _ = ALLOCS.try_with(|a| a.set(a.get() + 1));
@@ -63,6 +78,19 @@ pub fn window_start() -> isize {
     let live = LIVE.with(|l| l.get());
     PEAK.with(|p| p.set(live));
     live
+}
+
+/// Arm the window: the first allocation that takes live bytes more than `allowance` above
+/// `baseline` records the call in flight (`MARK`).
+pub fn window_limit(baseline: isize, allowance: u64) {
+    TRIPPED.with(|t| t.set(None));
+    LIMIT.with(|l| l.set(baseline.saturating_add(allowance.min(isize::MAX as u64) as isize)));
+}
+
+/// Disarm; returns the call that was in flight when the limit was first exceeded.
+pub fn window_tripped() -> Option<&'static str> {
+    LIMIT.with(|l| l.set(isize::MAX));
+    TRIPPED.with(|t| t.take())
 }
 
 /// Peak growth above `baseline` since `window_start`.
